@@ -22,6 +22,13 @@ func vCanonicalBase(b types.Base) bool {
 	return false
 }
 
+var vCanonTab = func() (t [256]bool) {
+	for i := 0; i < 256; i++ {
+		t[i] = vCanonicalBase(types.Base(i))
+	}
+	return
+}()
+
 func vIsFloat(b types.Base) bool { return b == types.BaseFloat32 || b == types.BaseFloat64 }
 
 func vIsSigned(b types.Base) bool {
@@ -43,7 +50,7 @@ func vCompat(fd fieldDef, pf *field) bool {
 		return false
 	}
 	if pf.t.Array() {
-		return fd.btype == pt && int(fd.size)%dsz == 0
+		return fd.btype == pt && int(fd.size)%dsz == 0 && int(fd.size) >= dsz // at least one element
 	}
 	if int(fd.size) != dsz || dsz > psz {
 		return false
@@ -86,20 +93,40 @@ func H02a() {
 		vReached("end")
 		return
 	}
+	// Only compatible definitions are compared (C01 owns the rest). The
+	// guard is applied before the case split so that the split enumerates
+	// compatible (base type, size) pairs only.
+	vAssume(vCanonTab[fd.btype])
 	fd.btype = types.Base(vConcretize(int(fd.btype)))
-	if !vCanonicalBase(fd.btype) {
-		vReached("end")
-		return
-	}
+	pt0 := pf.t.BaseType()
 	isStr := fd.btype == types.BaseString
-	if isStr && !allstr {
-		vAssume(vStrSizes[fd.size])
-	}
 	var data [255]byte
-	if isStr && pf.t.Array() {
-		vStringArrayData(&fd, data[:], allstr)
-	} else {
+	switch {
+	case pt0 == types.BaseString || isStr:
+		if !(pt0 == types.BaseString && isStr) {
+			vReached("end")
+			return
+		}
+		if !allstr {
+			vAssume(vStrSizes[fd.size])
+		}
+		if pf.t.Array() {
+			vStringArrayData(&fd, data[:], allstr)
+		} else {
+			fd.size = byte(vConcretize(int(fd.size)))
+			vBytes(data[:fd.size])
+		}
+	case pf.t.Array():
+		if fd.btype != pt0 {
+			vReached("end")
+			return
+		}
+		vAssume(int(fd.size)%fd.btype.Size() == 0 && fd.size != 0)
 		fd.size = byte(vConcretize(int(fd.size)))
+		vBytes(data[:fd.size])
+	default:
+		vAssume(int(fd.size) == fd.btype.Size())
+		fd.size = byte(fd.btype.Size())
 		vBytes(data[:fd.size])
 	}
 	if !vCompat(fd, pf) {
@@ -108,7 +135,6 @@ func H02a() {
 	}
 	vAssert(d.validateFieldDef(gmn, fd) == nil, "C02.compatible-definition-accepted")
 	dsz := fd.btype.Size()
-	pt := pf.t.BaseType()
 	big := false
 	var arch binary.ByteOrder = vNoOrder{}
 	if dsz > 1 || pf.t.Kind() != types.NativeFit {
@@ -124,10 +150,8 @@ func H02a() {
 		vReached("end")
 		return
 	}
-	narrow := !pf.t.Array() && pt != types.BaseString && dsz < pt.Size()
-	// Known findings (see known_findings.json)
-	vKnown("KF-C02-big-endian-narrow-field", narrow && big)
-	vKnown("KF-C02-narrow-signed-not-extended", narrow && vIsSigned(fd.btype))
+	// (Two defects this comparison found on the pinned tree are repaired in
+	// /repo: see the "fixed" entries for C02 in known_findings.json.)
 	fv := msg.Field(pf.sindex)
 	n := int(fd.size)
 	switch pf.t.Kind() {
